@@ -160,7 +160,7 @@ pub fn all() -> Vec<PropDef> {
         PropDef {
             id: "C11",
             level: "exploration",
-            rule: "proptest clock values (secs 0..=2^34 and boundary dates up to 9999-12-31, nanos incl. 0, 1, 999, 1000, 999999, 999999999) x both versions through OnlineKey::make_srep, decoded with the reference codec: 0 <= clock - MIDP < one unit (microsecond / second), RADI = 5 s in that unit, signature valid; live: replies of in-process servers (young and aged > 1 s, incl. byte-identical batches repeated after > 1 s) bracketed by the harness clock with 250 ms slack. Non-trivial = pure case with nanos != 0, or live reply from a server older than 1 s; distinct by (secs, nanos, version) / SREP",
+            rule: "proptest clock values (secs 0..=2^34 and boundary dates up to 9999-12-31, nanos incl. 0, 1, 999, 1000, 999999, 999999999) x both versions through OnlineKey::make_srep, decoded with the reference codec: 0 <= clock - MIDP < one unit (microsecond / second), RADI = 5 s in that unit, signature valid; live: replies of in-process servers (young and aged > 1 s, incl. byte-identical batches repeated after > 1 s) bracketed by the harness clock with 250 ms slack; real binary under non-UTC time zones; real binary under bursts from 16..64 concurrent clients with microsecond midpoints inside [request sent, reply received] (2 ms tolerance, clock-step guard). Non-trivial = pure case with nanos != 0, or live reply from a server older than 1 s; distinct by (secs, nanos, version) / SREP",
             assumptions: &["'expressed in whole units' is read as truncation: the largest whole unit not exceeding the clock reading (a midpoint later than the reading it expresses is flagged)", "CLOCK_REALTIME is not stepped by more than 250 ms during a live case"],
             shards: s16,
             timeout_s: t_std,
